@@ -296,6 +296,9 @@ PRules(st, e, heavy) ==
       \cup (IF e.in \in {"write", "readfrom", "shrink", "reset", "readat", "byteat", "peekat"}
             THEN {<<"C15.no_panic", FALSE>>} ELSE {})
       \cup (IF e.in = "parsenil" THEN {<<"C14.no_panic", FALSE>>} ELSE {})
+      \* a block parsed after a skipped one must be a correct block: a Parse
+      \* that panics after Parse(nil) does not deliver one
+      \cup (IF e.in = "parse" /\ st.nils > 0 THEN {<<"C14.block_after_skip", FALSE>>} ELSE {})
     [] e.op = "timeout" -> { <<"C16.no_hang", FALSE>> }
     [] e.op = "livelock" -> { <<"C16.no_hang", FALSE>> }
     [] OTHER -> { <<"C00.unknown_op", FALSE>> }
